@@ -282,7 +282,7 @@ def opEsFind (iter : Bool) (args : List String) : String :=
   | _ => "bad-request"
 
 /-- `search <len> <bounds> <findFrom table p:s-e|p:x,…> <ops n/b…>` → the step returned by each call -/
-def opSearch (args : List String) : String :=
+def opSearch (provided : Bool) (args : List String) : String :=
   match args with
   | [len, bounds, ff, ops] =>
     let parseFF (s : String) : Option (Nat × Option (Nat × Nat)) :=
@@ -301,6 +301,11 @@ def opSearch (args : List String) : String :=
             | none => none
           isBoundary := fun p => bounds.contains p
           nextBoundary := fun e => if e ≥ len then none else bounds.find? (· > e) }
+      if provided then
+        match Api.SOp.ofString ops with
+        | none => "bad-request"
+        | some opsL => Api.showCallOps (Api.callOps ctx opsL Api.RegexSearcher.new)
+      else
       let opsL := ops.toList.map (· == 'n')
       match Api.callSteps ctx opsL Api.RegexSearcher.new with
       | .error _ => "error"
@@ -335,7 +340,8 @@ def answer (line : String) : String :=
   | ["print", flags, ast] => Print.printLine flags ast
   | ["lower", flags, ast] => Lower.lowerLine flags ast
   | ["esvalid", flags, pat] => ESG.esValidLine flags pat
-  | "search" :: args => opSearch args
+  | "search" :: args => opSearch false args
+  | "search2" :: args => opSearch true args
   | "esfind" :: args => opEsFind false args
   | "esiter" :: args => opEsFind true args
   | "runprog" :: args => opRunProg args
